@@ -157,7 +157,7 @@ func genSparseElem(r *Rng, et EType) Elem {
 
 func pickType(r *Rng, realOnly, plainOnly bool) EType {
 	for {
-		et := etypes[r.Pick([]int{5, 5, 2, 2, 2, 2, 1, 1, 2})]
+		et := etypes[r.Pick([]int{3, 3, 2, 2, 2, 2, 2, 2, 2})]
 		if realOnly && !et.Real || plainOnly && et.Real {
 			continue
 		}
@@ -169,6 +169,9 @@ func pickType(r *Rng, realOnly, plainOnly bool) EType {
 
 func genOps(r *Rng, rows, cols int, allowT bool) []Op {
 	var ops []Op
+	if allowT && r.Intn(5) == 0 { // a pure transpose: the only view that keeps rowMax == rows and colMax == cols
+		return []Op{{T: true}}
+	}
 	n := r.Pick([]int{3, 4, 3, 2})
 	for k := 0; k < n; k++ {
 		if allowT && r.Intn(3) == 0 {
